@@ -9,7 +9,7 @@ import (
 	"strings"
 
 	"verifh/core"
-	"verifh/props"
+	"verifh/env"
 )
 
 func main() {
@@ -36,7 +36,7 @@ func main() {
 			seed = v
 		}
 	}
-	run, ok := props.Registry[id]
+	run, ok := core.Registry[id]
 	if !ok {
 		fmt.Fprintln(os.Stderr, "unknown property", id)
 		os.Exit(2)
@@ -44,7 +44,7 @@ func main() {
 	ctx := core.NewCtx(id, *tier, seed, *root)
 	ctx.Replay = *replay
 	ctx.Child = *child
-	props.GlobalInit()
+	env.GlobalInit()
 	if *child != "" {
 		run(ctx)
 		os.Exit(0)
